@@ -713,6 +713,13 @@ func (p *Prog) header(useSeq bool, specUsed, langsUsed map[string]bool, lemmas [
 	}
 	var lemmaTexts []string
 	for _, ln := range lemmas {
+		if ln == "seq_extensionality" {
+			// opt-in: two views of equal length and equal bytes denote the same abstract sequence
+			// (sound under the intended reading bs_val b o l = b[o..o+l)); needed where two symbolic
+			// strings are compared with ==
+			lemmaTexts = append(lemmaTexts, seqExtensionality)
+			continue
+		}
 		la, ok := p.lemmaAxioms[ln]
 		if !ok {
 			panic(unsupported{"contract uses lemma " + ln + ", which does not exist or has no axiom form"})
@@ -820,6 +827,11 @@ const seqPrelude = `(declare-sort BSeq 0)
 (assert (forall ((b (Array Int Int)) (o Int) (l Int) (m Int)) (! (=> (and (<= 0 m) (<= m l)) (= (bs_val b o l) (bs_cat (bs_val b o m) (bs_val b (+ o m) (- l m))))) :pattern ((bs_val b o l) (bs_val b o m)))))
 (assert (forall ((b (Array Int Int)) (o Int) (l Int) (o2 Int) (l2 Int)) (! (=> (and (<= o o2) (<= 0 l2) (= (+ o2 l2) (+ o l))) (= (bs_val b o l) (bs_cat (bs_val b o (- o2 o)) (bs_val b o2 l2)))) :pattern ((bs_val b o l) (bs_val b o2 l2)))))
 `
+
+const seqExtensionality = `(assert (forall ((b1 (Array Int Int)) (o1 Int) (b2 (Array Int Int)) (o2 Int) (l Int)) (! (=> (and (>= l 0) (forall ((k Int)) (=> (and (<= 0 k) (< k l)) (= (select b1 (+ o1 k)) (select b2 (+ o2 k)))))) (= (bs_val b1 o1 l) (bs_val b2 o2 l))) :pattern ((bs_val b1 o1 l) (bs_val b2 o2 l)))))
+(declare-fun bs_at (BSeq Int) Int)
+(assert (forall ((b (Array Int Int)) (o Int) (l Int) (k Int)) (! (=> (and (<= 0 k) (< k l)) (= (bs_at (bs_val b o l) k) (select b (+ o k)))) :pattern ((bs_at (bs_val b o l) k)))))
+(assert (forall ((b (Array Int Int)) (o Int) (l Int) (k Int)) (! (=> (and (<= 0 k) (< k l)) (= (bs_at (bs_val b o l) k) (select b (+ o k)))) :pattern ((bs_val b o l) (select b (+ o k))))))`
 
 var builtinSpecOrder = []string{"dyntype", "sortedof", "fields_n", "iface_pack", "hexdigl", "hexdigu", "hex2lower", "hex6upper", "utf8enc", "utf8len", "utf8dec", "bs_nth"}
 var builtinSpecs = map[string]string{
